@@ -45,7 +45,6 @@ Qed.
 
 Section Inv.
 Variable strf : N -> N -> comp.
-Variable rtm : N -> N.
 Variable c : cfg.
 Hypothesis strf_nonempty : forall k t, strf k t <> [].
 
@@ -454,6 +453,89 @@ Proof.
       rewrite contents_app. unfold contents at 2. cbn [flat_map]. rewrite app_nil_r, <- app_assoc. reflexivity.
     + rewrite app_nil_r. unfold dq1_of. rewrite <- map_rev, C1; auto.
       intros x Hx. apply in_rev in Hx; auto.
+Qed.
+
+Lemma rotated_tail : forall ts s f, Inv s -> In f (tl (dq (rotated ts s))) ->
+  exists f0, In f0 (dq s) /\ f = B (sfx_of (ots s)) f0 /\
+             fs_content (fname f) (fs (rotated ts s)) = fs_content (fname f0) (fs s).
+Proof.
+  intros ts s f H Hf. cbn [rotated dq tl] in Hf.
+  destruct (chain_facts s H) as [R1 _].
+  pose proof (dq1_rot_wf s H) as F1. pose proof (dq1_nodup s H) as ND1. pose proof (dq1_nonempty s H) as NE1.
+  pose proof (app_removelast_last (mk_live c 0) NE1) as SPL. fold (lastf s) in SPL.
+  assert (Hf1 : In f (dq1_of s)).
+  { destruct (del_due s); auto. rewrite SPL. apply in_or_app; auto. }
+  assert (Hf2 : del_due s = true -> fname f <> fname (lastf s)).
+  { intros DD EN. rewrite DD in Hf. rewrite SPL in ND1. unfold names in ND1. rewrite map_app in ND1.
+    apply NoDup_remove_2 in ND1. apply ND1. rewrite app_nil_r, <- EN. apply in_map; auto. }
+  unfold dq1_of in Hf1. apply in_map_iff in Hf1 as [f0 [E0 H0]].
+  exists f0. repeat split; auto. unfold fs_content. rewrite rotated_get by auto.
+  assert (A : fname f <> lp) by (apply rot_wf_not_live; rewrite Forall_forall in F1; apply F1; unfold dq1_of; rewrite <- E0; apply in_map; auto).
+  apply path_eqb_neq in A. rewrite A.
+  destruct (del_due s) eqn:DD; cbn [andb].
+  - specialize (Hf2 eq_refl). apply path_eqb_neq in Hf2. rewrite Hf2. rewrite <- E0, R1; auto.
+  - rewrite <- E0, R1; auto.
+Qed.
+
+Lemma related_dec_stem : forall p, ~ related p -> p <> lp.
+Proof. intros p H E. apply H. subst. apply lp_related. Qed.
+
+Lemma rotated_unrelated : forall ts s p, Inv s -> ~ related p ->
+  fs_get p (fs (rotated ts s)) = fs_get p (fs s).
+Proof.
+  intros ts s p H NR. destruct (chain_facts s H) as [_ R2].
+  pose proof (dq1_rot_wf s H) as F1. pose proof (inv_ent_ok s H) as EO.
+  rewrite rotated_get by auto.
+  assert (A : p <> lp) by (apply related_dec_stem; auto). apply path_eqb_neq in A. rewrite A.
+  assert (N1 : ~ In p (names (dq1_of s))).
+  { intro I. unfold names in I. apply in_map_iff in I as [x [Ex Hx]]. apply NR. rewrite <- Ex.
+    apply fname_related. left. rewrite Forall_forall in F1; auto. }
+  assert (N0 : ~ In p (names (dq s))).
+  { intro I. unfold names in I. apply in_map_iff in I as [x [Ex Hx]]. apply NR. rewrite <- Ex.
+    apply fname_related. rewrite Forall_forall in EO; auto. }
+  assert (NLf : p <> fname (lastf s)).
+  { intro E. apply N1. rewrite E. unfold names. apply in_map. unfold lastf.
+    pose proof (app_removelast_last (mk_live c 0) (dq1_nonempty s H)) as SPL. rewrite SPL at 2.
+    apply in_or_app; right; left; auto. }
+  apply path_eqb_neq in NLf. rewrite NLf, andb_false_r. rewrite R2 by auto.
+  destruct (in_dec path_eq_dec p (names (dq s))); tauto.
+Qed.
+
+Lemma rotated_live : forall ts s, Inv s -> fs_content lp (fs (rotated ts s)) = [].
+Proof. intros ts s H. unfold fs_content. rewrite rotated_get by auto. rewrite path_eqb_refl; auto. Qed.
+
+Lemma dq1_length : forall s, length (dq1_of s) = length (dq s).
+Proof. intro s. unfold dq1_of. apply map_length. Qed.
+
+Lemma removelast_length : forall A (l : list A), l <> [] -> S (length (removelast l)) = length l.
+Proof.
+  intros A l H. destruct l as [|a l]; [congruence|].
+  rewrite (app_removelast_last a H) at 2.
+  rewrite app_length. cbn [length]. lia.
+Qed.
+
+Lemma rotated_length : forall ts s, Inv s ->
+  N.of_nat (length (dq (rotated ts s))) =
+  if c_maxb c <? N.of_nat (length (dq s)) then N.of_nat (length (dq s)) else N.of_nat (length (dq s)) + 1.
+Proof.
+  intros ts s H. cbn [rotated dq length]. unfold del_due. rewrite dq1_length.
+  destruct (c_maxb c <? N.of_nat (length (dq s))).
+  - f_equal. rewrite removelast_length by (apply dq1_nonempty; auto). apply dq1_length.
+  - rewrite dq1_length. lia.
+Qed.
+
+Lemma rotated_gdel_keep : forall ts s, rot_fires s = true -> c_over c = false -> g_del (rotated ts s) = g_del s.
+Proof.
+  intros ts s F O. cbn [rotated g_del]. unfold del_due. rewrite dq1_length.
+  unfold rot_fires in F. rewrite O in F. cbn [negb] in F. rewrite andb_true_r in F.
+  apply andb_true_iff in F as [F _]. apply negb_true_iff in F. rewrite F. apply app_nil_r.
+Qed.
+
+Lemma rotate_inv : forall ts s, Inv s -> Inv (rotate ts s).
+Proof.
+  intros ts s H. destruct (rot_fires s) eqn:F.
+  - rewrite rotate_fires by auto. apply rotated_inv; auto.
+  - rewrite rotate_noop by auto. auto.
 Qed.
 
 End Inv.
